@@ -767,6 +767,9 @@ def run(ctx):
             res.count('valid.root=' + t)
             res.count('canon=%s' % ans['canon'])
             res.count('node-text-judged=%s' % (ans['canon'] and ans['complete'] and ans['fmtlaw']))
+            if ans.get('cvalid') is not None:
+                # hypothesis of client_cache_string_write: the cached value lies in the value set of the rebuilt type
+                res.count('client-value-valid-for-rebuilt-type=%s' % ans['cvalid'])
             if not ans['fmtlaw']:
                 # a scaled leaf whose text reads back to a neighbouring grid point (grid finer than the double spacing)
                 res.count('precondition.fmt-law-fails(text not judged)')
